@@ -169,7 +169,13 @@ fn doc_text(m: &DocModel, rng: &mut Rng, nl: &str, st: &mut Stats) -> String {
 // ---------------------------------------------------------------------------
 // Situations
 
+thread_local! { static COL0: std::cell::Cell<bool> = std::cell::Cell::new(false); }
+
 fn ws(rng: &mut Rng, nl: &str, allow_empty: bool) -> String {
+    if COL0.with(|c| c.get()) {
+        // "column 0" mode: every piece of the gap starts a new line without indentation
+        return if rng.chance(1, 6) { format!("{nl}{nl}") } else { nl.to_string() };
+    }
     let opts: &[&str] = if allow_empty { &["", " ", "  ", "\n", "\n  ", "\t", "\n\n", " \n"] } else { &[" ", "  ", "\n", "\n  ", "\t", "\n\n"] };
     rng.pick_str(opts).replace('\n', nl)
 }
@@ -185,6 +191,24 @@ fn ordinary(rng: &mut Rng, nl: &str) -> String {
 
 /// Builds the forced gap in front of a documentable construct and the expected documentation.
 fn situation(rng: &mut Rng, nl: &str, st: &mut Stats, kind: &str) -> (String, Option<String>, &'static str) {
+    let col0 = rng.chance(1, 4);
+    COL0.with(|c| c.set(col0));
+    let r = situation_inner(rng, nl, st, kind);
+    COL0.with(|c| c.set(false));
+    if col0 {
+        st.inc("gaps_with_every_comment_at_column_0");
+        // the construct itself may follow the last comment on the same line
+        if r.0.ends_with(nl) && rng.chance(1, 2) && !r.0.trim_end().ends_with(|c: char| c != '/' ) {
+            let trimmed = r.0[..r.0.len() - nl.len()].to_string();
+            if trimmed.ends_with("*/") {
+                return (format!("{trimmed} "), r.1, r.2);
+            }
+        }
+    }
+    r
+}
+
+fn situation_inner(rng: &mut Rng, nl: &str, st: &mut Stats, kind: &str) -> (String, Option<String>, &'static str) {
     let s = rng.below(12);
     match s {
         0..=2 => (ws(rng, nl, false), None, "no_comment"),
